@@ -988,3 +988,12 @@ Proof.
   - eexists; reflexivity.
   - eexists; split; reflexivity.
 Qed.
+
+(* ================================================================ 7. the FULL statements for the current code
+   (these two hold because THE SWITCH says the disjunction check is no longer nested; with the switch at `true` they fail
+   to compile and `ready_process_ok_current` / `missing_disjunction_reported_current` state the refutation instead) *)
+Theorem ready_process_ok : ready_process_ok_statement (@is_ready).
+Proof. exact ready_fixed_process_ok. Qed.
+
+Theorem missing_reported : forall op, missing_reported_statement (@is_ready) op.
+Proof. exact missing_reported_fixed. Qed.
